@@ -28,8 +28,9 @@ static scpi_result_t hS(scpi_t *c) { int32_t v = -1; if (!SCPI_ParamInt32(c, &v,
 static scpi_result_t hT(scpi_t *c) { rec(3, 0); SCPI_ResultInt32(c, 1); SCPI_ResultInt32(c, 2); return SCPI_RES_OK; } /* TEST:TWO? two items */
 static scpi_result_t hO(scpi_t *c) { rec(4, 0); SCPI_ResultInt32(c, 9); return SCPI_RES_OK; }           /* OTHer:VAL? */
 static scpi_result_t hI(scpi_t *c) { rec(5, 0); SCPI_ResultInt32(c, 5); return SCPI_RES_OK; }           /* *IDN?      */
+static scpi_result_t hP(scpi_t *c) { int32_t v = -2; if (!SCPI_ParamInt32(c, &v, FALSE)) v = -2; rec(6, v); return SCPI_RES_OK; }   /* TEST:OPT [n] - optional parameter */
 static const scpi_command_t CMDS[] = {
-    {"*IDN?", hI, 0}, {"TEST:VALue?", hQ, 0}, {"TEST:SET", hS, 0}, {"TEST:TWO?", hT, 0}, {"OTHer:VALue?", hO, 0}, {"VALue?", hO, 0}, SCPI_CMD_LIST_END };
+    {"*IDN?", hI, 0}, {"TEST:VALue?", hQ, 0}, {"TEST:SET", hS, 0}, {"TEST:TWO?", hT, 0}, {"OTHer:VALue?", hO, 0}, {"VALue?", hO, 0}, {"TEST:OPT", hP, 0}, SCPI_CMD_LIST_END };
 /* menu of unit texts: text, handler expected when the unit is written at root (0 = undefined header -> -113),
  * 'rel' = expected handler when the preceding unit's path is TEST: / OTHer: */
 typedef struct { const char *txt; int root; int relT; int relO; int val; int errs; int path; } menu_t; /* path: 0 none/keeps, 1 TEST:, 2 OTHer:, 3 resets (common), 4 root-only */
@@ -43,6 +44,9 @@ static const menu_t MENU[] = {
     {"TEST:TWO?", 3, 3, 3, 0, 0, 1},
     {"BAD:CMD", 0, 0, 0, 0, -113, 4},
     {"TEST:SET 5,", 0, 0, 0, 0, -101, 0}, /* list ending with a separator: command error, no handler, the path is left alone */
+    {":TEST:OPT", 6, 6, 6, -2, 0, 1},      /* optional parameter absent: the handler must see NO parameter, whatever an earlier unit left unread (C09) */
+    {":TEST:OPT 3", 6, 6, 6, 3, 0, 1},
+    {":TEST:VAL? 4", 1, 1, 1, 0, -108, 1}, /* surplus parameter: the handler runs, its response is written, then -108 */
 };
 #define NMENU (sizeof MENU / sizeof MENU[0])
 static scpi_interface_t itf = { e_, w_, NULL, NULL, NULL };
@@ -85,17 +89,18 @@ void h_msg_dispatch(void) {
         if (!absolute && path != 0 && m->path != 0) h = 0;
         if (h == 0) { __CPROVER_assert(ek < T.errn && T.err[ek] == -113, "C02: undefined effective header queues -113"); ek++; }
         else {
-            __CPROVER_assert(k < T.n && T.h[k] == h && (h != 2 || T.v[k] == m->val), "C02: handler of the first entry matching the effective header runs, in message order, with its parameter");
+            __CPROVER_assert(k < T.n && T.h[k] == h && ((h != 2 && h != 6) || T.v[k] == m->val), "C02: handler of the first entry matching the effective header runs, in message order, with its parameter");
             k++;
-            int items = (h == 3) ? 2 : (h == 2 ? 0 : 1), it; char dig = h == 1 ? '7' : h == 4 ? '9' : h == 5 ? '5' : 0;
+            int items = (h == 3) ? 2 : ((h == 2 || h == 6) ? 0 : 1), it; char dig = h == 1 ? '7' : h == 4 ? '9' : h == 5 ? '5' : 0;
             if (items) { if (responded) exp[en++] = ';'; if (h == 3) { exp[en++] = '1'; exp[en++] = ','; exp[en++] = '2'; } else exp[en++] = dig; responded = 1; }
             (void) it;
+            if (m->errs == -108) { __CPROVER_assert(ek < T.errn && T.err[ek] == -108, "C05: parameters left unread by a handler that otherwise succeeded queue -108"); ek++; }
         }
         /* path for the next unit: everything up to the last colon of this unit's effective header */
         if (m->txt[0] == '*') path = 0; else if (absolute || path == 0 || h == 0) path = (m->path == 1 || m->path == 2) ? m->path : (m->path == 4 ? 4 : path);
         if (path == 4) path = 9;   /* BAD: - a path no menu entry continues */
     }
-    __CPROVER_assert(T.n == k && T.errn == ek, "C02: exactly one handler invocation or one -113 per unit");
+    __CPROVER_assert(T.n == k && T.errn == ek, "C02/C05: exactly one handler invocation or one -113 per unit, and no error other than the ones the statement names");
     if (responded) { exp[en++] = '\r'; exp[en++] = '\n'; }
     __CPROVER_assert(T.outn == en, "C06: response units separated by ';', items by ',', one terminator iff something responded");
     int i = nondet_int(); __CPROVER_assume(i >= 0 && i < OUTMAX);
